@@ -2,6 +2,7 @@ package props
 
 import (
 	"fmt"
+	"runtime"
 	"sort"
 	"sync/atomic"
 
@@ -102,6 +103,7 @@ func runC15(c *Ctx) {
 	var evals int64
 	check := func(r recipe, extraTargets bool) (string, *ev.Fail) {
 		b := r.Build()
+		defer runtime.KeepAlive(b)
 		nb := newNb(b.M)
 		targets := tks
 		if extraTargets {
